@@ -662,7 +662,10 @@ def run(ctx):
     failures = []
     for case, co in zip(cases, couts):
         if case.op in ("rfi", "run", "param", "ipar"):
-            r = check_rfi_case(R, case, co, stats)
+            try:
+                r = check_rfi_case(R, case, co, stats)
+            except (ValueError, OverflowError, IndexError, ZeroDivisionError) as e:
+                r = "unparsable output of the implementation %s (%s)" % (co, e)
             n = len(case.xp)
             for q in case.qs:
                 ctx.count((case.op, tuple(case.xp), getattr(case, "m", 0), getattr(case, "hint", 0), q) if n >= 2 else None)
@@ -680,7 +683,10 @@ def run(ctx):
     mouts = R.run_model([Case("spline", xp=c.xp, ys=c.ys, qs=c.qs) for c, _ in scases]) if scases else []
     sstats = {"knot": 0, "interp": 0, "einval": 0, "skipped": 0}
     for (case, co), mo in zip(scases, mouts):
-        r = check_spline_case(R, case, co, mo, sstats)
+        try:
+            r = check_spline_case(R, case, co, mo, sstats)
+        except (ValueError, OverflowError, IndexError, ZeroDivisionError) as e:
+            r = "unparsable output of the implementation %s (%s)" % (co, e)
         for q in case.qs:
             ctx.count((case.op, tuple(case.xp), tuple(case.ys), q) if len(case.xp) >= 2 else None)
         ctx.traces_validated += 1
@@ -963,7 +969,10 @@ def check_ranges(ctx, R, rcases, routs, broken):
             tie_bad = ("%s: generated function says %s, implementation %s for need %.9g..%.9g have %.9g..%.9g"
                        % (site, "reject" if dec else "accept", outcome, float(nl), float(nh), float(hl), float(hh)))
         if outcome == "ACC" and case.op == "merr":
-            r = check_merr_values(R, case, co)
+            try:
+                r = check_merr_values(R, case, co)
+            except (ValueError, OverflowError, IndexError, ZeroDivisionError) as e:
+                r = "unparsable output of the implementation %s (%s)" % (co, e)
             if r is not None:
                 ctx.violation({"kind": "disagreement", "op": "merr", "class": "knot" if "knot" in r else "interpolation", "n": len(case.xp)},
                               "merr with %d knot(s) %s, sigma %s, calibration frequencies %s: %s"
@@ -1078,6 +1087,8 @@ def check_apply_history(ctx, R, rng, count):
         for j, q in enumerate(case.qs):
             v = (o[2 + 2 * j], o[3 + 2 * j])
             ctx.count(("apply", gi, q))
+            if isbad(cfloat(v[0]), cfloat(v[1])) and bad is None:
+                bad = (case, "vnacal_apply_m at f = %.17g inside the calibration range returns a non-finite value %s" % (float(q), v))
             if (gi, q) in seen and seen[(gi, q)][0] != v and bad is None:
                 bad = (case, "vnacal_apply_m at f = %.17g: %s in this request, %s in request %s"
                        % (float(q), v, seen[(gi, q)][0], [float(x) for x in seen[(gi, q)][1].qs]))
